@@ -152,6 +152,16 @@ chk("C13", "model_checking",
     "TLA+ spec Strain.tla (exact rational strain) model-checked by TLC + path replay into both modules; three-way verdict with a named deviation model",
     "DESIGN.md section 7 C13")
 
+chk("C18", "model_checking",
+    "ReduceCell.tla runs the sort-then-pick machine of reduce_cell on integer direct metrics (small reduced metrics and their images "
+    "under random unimodular changes of basis) with the order of equal-length vectors left nondeterministic, so TLC produces every "
+    "outcome the code may legitimately return, with exact new metric V'GV and det V, and checks termination. The real reduce_cell "
+    "(both modules) must return the cell of one allowed outcome. The rows-versus-columns defect is recognised exactly by its deviation "
+    "model (cell of R'R for an allowed outcome) and reported as a known finding; any other result is a violation.",
+    "Trusted: TLC; numpy Cholesky for the deviation model only; instances whose search range is too small (non-unimodular outcome) are outside the quantifier and counted as skipped.",
+    "TLA+ spec ReduceCell.tla (nondeterministic tie order, exact integer lengths) model-checked by TLC + replay; three-way verdict with a named deviation model",
+    "DESIGN.md section 7 C18")
+
 ALL = ["C%02d" % i for i in range(1, 21)]
 
 
